@@ -5,7 +5,9 @@ from lib.mirq import Slice, calls_matching, edge_dominates, result_exits
 from lib.mirfwd import (bool_switches, callee_of, cycle_members, blocks_between, derives_from_call, edges_dominate, empty_edges, forwarded_sites, helper_frames, ip_roots, result_checked, result_edges)
 
 TECHNIQUE = ("MIR CFG path rules (dominance, must-pass-through pairing, edge dominance) + operand provenance + who-may-call on the include expander; "
-             "roles by type / callee / recursion cycle, calls followed through private helpers and closures with parameters bound to arguments (lib/mirfwd.py)")
+             "roles by type / callee / recursion cycle, calls followed through private helpers and closures with parameters bound to arguments (lib/mirfwd.py); "
+             "finite tables: the fence scanners and the include expander interpreted from their expanded syntax over generated lines / include graphs in a virtual file system "
+             "and compared with an oracle of the property (lib/rsinterp.py, rules/c20_tables.py)")
 EXPLANATION = (
     "Decides the structural clauses of C20 on the MIR of the include expander in crate `mech`: the cycle test "
     "dominates the active-set insertion and every recursive call and its true-branch returns Err; every path from the "
@@ -21,6 +23,15 @@ EXPLANATION = (
     'that cycle that calls it back; the membership test is `contains` or an `insert` whose bool result is branched on (either polarity spelling) or a gate helper whose Err edge is the present edge; '
     'helpers between the two (flush helpers, closures) are looked through with parameters bound to arguments; R8 and R9 are decided on the CFG (cfg:* obligations), their syntactic forms are kept '
     'for the spelling they recognise and recorded as undecided otherwise.'
+    ' (R10) the two fence scanners, found by role on the MIR (opener test = the local fn whose Option<(char,usize,usize)> the line loop branches on; close test = the local bool fn asked about '
+    'the fence state), are INTERPRETED from their expanded source (lib/rsinterp.py: a model of &str with byte offsets / &[u8] / char / Option / iterator adaptors / closures; nothing is compiled or '
+    'run) on a generated table of ~1160 lines (indentation 0-5 or tab x marker x run 1-6 x what follows the run; close test x opening marker x opening length) and must agree with the fence '
+    'definition (at most three spaces, at least three identical ` or ~; closes iff same marker, run at least as long, only blanks behind the run): what is decided is the decision of each scanner '
+    'on every table row - an offset, bound or character set that is wrong at some indentation / length shows as a wrong row - not the behaviour on lines outside the table.'
+    ' (R11) the whole expander (guarded function with a fresh active set, and the outside entry) is interpreted the same way over 68 small include graphs in a virtual file system and compared '
+    'with an independent reference of the property (textual substitution, newline of the include line kept, resolution against the including file, stand-alone test, fences at every indentation, '
+    'cycle = circular-include error, missing = include error naming the target, active set empty after success, no panic / divergence): one obligation per clause; decided is the outcome on the '
+    'table rows (ASCII and a few UTF-8 names, LF line ends), not on arbitrary inputs; a construct the interpreter does not model leaves the table undecided (note), never silently skipped.'
 )
 
 HS = r"std::collections::hash::set::HashSet::<T, S, A>::"
@@ -298,6 +309,7 @@ def check_guarded(F, rep, R, cg, bodies):
     rep.floor("C20-R3", "fence-state variable in %s" % name, len(fence), 1)
     mir9 = None
     close_names = []
+    opener_fns, close_fns = [], []
     if fence:
         fl = fence[0]
         # switch on discriminant of fence var: find blocks computing discr(fence) then switch
@@ -352,6 +364,11 @@ def check_guarded(F, rep, R, cg, bodies):
         # the close test = the local bool function that is asked about the payload of the fence state
         close_names = sorted({last(callee_of(t)) for _, t in R.calls() if callee_of(t) in cg.bodies and R.locals[t["d"][0]] == "bool"
                               and any(isinstance(a, list) and fl in sl.locals_feeding(a) for a in t["args"])})
+        # the fence scanners by role (C20-R10): the opener test = the local function whose Option<(char,usize,usize)> the line loop
+        # branches on, the close test = the local bool function asked about the payload of the fence state
+        close_fns = sorted({callee_of(t) for _, t in R.calls() if callee_of(t) in cg.bodies and R.locals[t["d"][0]] == "bool"
+                            and any(isinstance(a, list) and fl in sl.locals_feeding(a) for a in t["args"])})
+        opener_fns = sorted({callee_of(t) for _, t in delim if callee_of(t) in cg.bodies})
 
     # R4 relative resolution: every Path::join in a function on the cycle, or in a helper (one or two levels) such a function calls.
     # Provenance is evaluated across the helper's frame (parameters bound to the arguments of the call).
@@ -503,6 +520,8 @@ def check_guarded(F, rep, R, cg, bodies):
     run_r7(F, rep, rep.tier, close_names)
     run_r8(F, rep, cg, sorted(reentry), inlined_expander, name)
     run_r9(F, rep, R, mir9, cg)
+    from rules.c20_tables import run_tables
+    run_tables(F, rep, R, cg, opener_fns, close_fns, sorted(f for f in verdicts if all(v[0] for v in verdicts[f])))
 
 
 def run_r7(F, rep, tier="quick", close_tests=()):
